@@ -277,17 +277,17 @@ Proof.
   etransitivity; [apply N.le_min_r|]. apply N.le_sub_l.
 Qed.
 
-Theorem payout_never_fails : forall S P L r b pool parts proposer elig ub,
+Theorem payout_never_fails : forall S P c0 L r b pool parts proposer elig ub,
   p_unit P <> 0 ->
   bounded S (bal L []) -> S < W64 ->
-  eval_generate P L r b pool parts = Ok ub ->
+  eval_generate_cap P c0 L r b pool parts = Ok ub ->
   exists d, finish_delta P L (b_hdr (finish_block P ub proposer elig)) (ub_delta ub) = Ok d.
 Proof.
-  intros S P L r b pool parts proposer elig ub HU B HS H.
-  destruct (generate_inv _ _ _ _ _ _ _ H) as (Hst & G & Eps & Ed & Ef).
+  intros S P c0 L r b pool parts proposer elig ub HU B HS H.
+  destruct (generate_inv _ _ _ _ _ _ _ _ H) as (Hst & G & Eps & Ed & Ef).
   set (hdr1 := set_start (hdr_template r b) (if p_genhash P then lv_genhash L else 0) (lv_nextrs L)) in *.
   set (l0 := put layer0 (lv_pool L) (base_lookup L (lv_pool L))) in *.
-  set (ev := gen_groups (Eg P r) L (mkEv l0 [] 0) pool) in *.
+  set (ev := gen_groups (Eg P c0 r) L (mkEv l0 [] 0) pool) in *.
   destruct ub as [hdr2 ps top finals]. cbn [ub_hdr ub_payset ub_delta ub_final] in *. subst ps top finals.
   rewrite fin_hdr_b.
   set (hF := fin_hdr P hdr2 (map (fun a => (a, lookup L [ev_top ev] a)) parts) proposer elig).
@@ -317,28 +317,28 @@ Proof.
   eexists; reflexivity.
 Qed.
 
-Theorem generate_validates : forall S P L r b pool parts proposer elig ub,
+Theorem generate_validates : forall S P c0 L r b pool parts proposer elig ub,
   p_applydata P = true -> p_unit P <> 0 ->
   (p_payouts P = true -> proposer <> 0) ->
   bounded S (bal L []) -> S < W64 ->
-  eval_generate P L r b pool parts = Ok ub ->
+  eval_generate_cap P c0 L r b pool parts = Ok ub ->
   let blk := finish_block P ub proposer elig in
   exists d, eval_validate P L blk = Ok d /\ finish_delta P L (b_hdr blk) (ub_delta ub) = Ok d.
 Proof.
-  intros S P L r b pool parts proposer elig ub HA HU Hprop B HS H blk.
-  destruct (payout_never_fails S P L r b pool parts proposer elig ub HU B HS H) as [d Hd].
-  exists d. split; [|exact Hd]. subst blk. rewrite (generate_validates_eq _ _ _ _ _ _ _ _ _ HA Hprop H). exact Hd.
+  intros S P c0 L r b pool parts proposer elig ub HA HU Hprop B HS H blk.
+  destruct (payout_never_fails S P c0 L r b pool parts proposer elig ub HU B HS H) as [d Hd].
+  exists d. split; [|exact Hd]. subst blk. rewrite (generate_validates_eq _ _ _ _ _ _ _ _ _ _ HA Hprop H). exact Hd.
 Qed.
 
 (* without payouts the validator's delta IS the generator's delta *)
-Corollary generate_validates_same_delta : forall P L r b pool parts proposer elig ub,
+Corollary generate_validates_same_delta : forall P c0 L r b pool parts proposer elig ub,
   p_applydata P = true -> p_payouts P = false ->
-  eval_generate P L r b pool parts = Ok ub ->
+  eval_generate_cap P c0 L r b pool parts = Ok ub ->
   eval_validate P L (finish_block P ub proposer elig) = Ok (ub_delta ub).
 Proof.
-  intros P L r b pool parts proposer elig ub HA Hoff H.
-  rewrite (generate_validates_eq _ _ _ _ _ _ _ _ _ HA (fun E => ltac:(congruence)) H).
-  destruct (generate_inv _ _ _ _ _ _ _ H) as (_ & G & _ & _ & _).
+  intros P c0 L r b pool parts proposer elig ub HA Hoff H.
+  rewrite (generate_validates_eq _ _ _ _ _ _ _ _ _ _ HA (fun E => ltac:(congruence)) H).
+  destruct (generate_inv _ _ _ _ _ _ _ _ H) as (_ & G & _ & _ & _).
   destruct (gen_fields_proj _ _ _ _ _ G) as (_ & _ & Gp & _).
   unfold finish_delta, perform_payout, record_proposal, finish_block. rewrite Hoff. cbn [negb orb b_hdr set_payout h_proposer].
   rewrite Gp. reflexivity.
